@@ -566,3 +566,17 @@ theorem classChanged_spec (fuel : Nat) (cc : Name) (h : Heap) (hn : NodupNames h
     refine ⟨⟨[], ?_⟩, hfix, hn, rfl⟩
     rw [← abs_map_unreadyIf, hid]
     rfl
+
+/-! ## typep: StandardObject.IsA / Hierarchy -/
+
+/-- `obj.IsA(class)`: a linear search of the precedence list of the instance's class object -/
+theorem isA_eq (T : GClass) (o : GObj) (k : Sym) : IsA T o k = decide (k ∈ T.precedence) := by
+  unfold IsA IsA.body
+  generalize T.precedence = l
+  induction l with
+  | nil => simp [Ctl.seq, Ctl.value]
+  | cons x xs ih =>
+    rw [forRange_cons]
+    by_cases h : k = x
+    · simp [h, Ctl.seq, Ctl.value]
+    · simpa [h] using ih
